@@ -71,7 +71,7 @@ theorem validate_seeds_iff (H : Hash) (P : List Nat) (S : SeedStruct) (st : Seed
 is that address is accepted, any other key is rejected. -/
 example :
     let H : Hash := fun flat _ => some flat
-    let S : SeedStruct := ⟨some [84], [.uint 2 513, .key [9, 9]]⟩
+    let S : SeedStruct := ⟨some [84], [[.uint 2 513], [.key [9, 9]]]⟩
     (validateSeeds H [1] S ⟨[84, 1, 2, 9, 9, 255], none⟩).1 = .ok
     ∧ (validateSeeds H [1] S ⟨[84, 1, 2, 9, 9, 255], none⟩).2.recorded = some ⟨S, 255⟩
     ∧ (validateSeeds H [1] S ⟨[84, 2, 1, 9, 9, 255], none⟩).1 = .addressMismatch := by
@@ -100,7 +100,7 @@ theorem validate_bump_iff (H : Hash) (P : List Nat) (S : SeedStruct) (b : Nat) (
 
 example :
     let H : Hash := fun flat _ => if flat.getLast? = some 7 then none else some flat
-    let S : SeedStruct := ⟨none, [.sint 1 (-1)]⟩
+    let S : SeedStruct := ⟨none, [[.sint 1 (-1)]]⟩
     (validateWithBump H [1] S 3 ⟨[255, 3], none⟩).1 = .ok
     ∧ (validateWithBump H [1] S 7 ⟨[255, 7], none⟩).1 = .createErr .invalidSeeds
     ∧ (validateWithBump H [1] S 4 ⟨[255, 3], none⟩).1 = .addressMismatch := by
@@ -166,7 +166,7 @@ theorem recorded_bump_recreate (H : Hash) (P : List Nat) (S : SeedStruct) (b : N
 
 example :
     let H : Hash := fun flat _ => some flat
-    let S : SeedStruct := ⟨some [84], [.uint 1 5]⟩
+    let S : SeedStruct := ⟨some [84], [[.uint 1 5]]⟩
     let st' := (validateSeeds H [1] S ⟨[84, 5, 255], none⟩).2
     signerSeeds st' = some [[84], [5], [255]]
     ∧ clientFind H [1] S = some ([84, 5, 255], 255)
@@ -179,18 +179,23 @@ integers of every width (two's complement when signed), verbatim for keys and by
 empty slot. The client helpers and the on-chain validation call this same function, so they cannot
 disagree on any of the three. -/
 theorem order_and_prefix (S : SeedStruct) :
-    seeds S = S.const.toList ++ S.fields.map bytesOf ++ [[]]
+    seeds S = S.const.toList ++ S.fields.map compBytes ++ [[]]
     ∧ (∀ c, S.const = some c → (seeds S)[0]? = some c
-        ∧ ∀ i (h : i < S.fields.length), (seeds S)[i + 1]? = some (bytesOf S.fields[i]))
-    ∧ (S.const = none → ∀ i (h : i < S.fields.length), (seeds S)[i]? = some (bytesOf S.fields[i]))
+        ∧ ∀ i (h : i < S.fields.length), (seeds S)[i + 1]? = some (compBytes S.fields[i]))
+    ∧ (S.const = none → ∀ i (h : i < S.fields.length), (seeds S)[i]? = some (compBytes S.fields[i]))
     ∧ (∀ w v, bytesOf (.uint w v) = leN w v ∧ (v < 256 ^ w → rdLE (bytesOf (.uint w v)) = v))
     ∧ (∀ w (v : Int), 0 ≤ v → v < (256 ^ w : Nat) → bytesOf (.sint w v) = leN w v.toNat)
     ∧ (∀ w (v : Int), v < 0 → -(256 ^ w : Nat) ≤ v →
         bytesOf (.sint w v) = leN w (256 ^ w - (-v).toNat))
     ∧ (∀ bs, bytesOf (.key bs) = bs ∧ bytesOf (.arr bs) = bs)
+    ∧ (bytesOf (.bool false) = [0] ∧ bytesOf (.bool true) = [1])
+    ∧ (∀ v, compBytes [v] = bytesOf v)
+    ∧ (∀ vs ws, compBytes (vs ++ ws) = compBytes vs ++ compBytes ws)
+    ∧ (compBytes [] = [] ∧ compBytes [.arr []] = [])
     ∧ (∀ H P, clientFind H P S = find H (seeds S) P)
     ∧ (∀ H P b, clientCreate H P S b = create H (seeds S ++ [[b]]) P) := by
-  refine ⟨rfl, ?_, ?_, ?_, ?_, ?_, ?_, fun _ _ => rfl, fun _ _ _ => rfl⟩
+  refine ⟨rfl, ?_, ?_, ?_, ?_, ?_, ?_, ⟨rfl, rfl⟩, compBytes_singleton, ?_, ⟨rfl, rfl⟩,
+    fun _ _ => rfl, fun _ _ _ => rfl⟩
   · intro c hc
     unfold seeds userSeeds
     rw [hc]
@@ -220,9 +225,264 @@ theorem order_and_prefix (S : SeedStruct) :
     congr 1
     omega
   · intro bs; exact ⟨rfl, rfl⟩
+  · intro vs ws; simp [compBytes]
 
-example : seeds ⟨some [84, 69], [.uint 2 258, .sint 2 (-2), .key [7, 7], .arr [1, 2, 3]]⟩
-    = [[84, 69], [2, 1], [254, 255], [7, 7], [1, 2, 3], []] := by decide
+example : seeds ⟨some [84, 69], [[.uint 2 258], [.sint 2 (-2)], [.key [7, 7]], [.arr [1, 2, 3]],
+      [.uint 4 1, .uint 2 2, .bool true], [.arr []], [.bool false]]⟩
+    = [[84, 69], [2, 1], [254, 255], [7, 7], [1, 2, 3], [1, 0, 0, 0, 2, 0, 1], [], [0], []] := by
+  decide
+
+/-- The bump goes into the LAST slot and nowhere else: `seeds_with_bump` replaces the last element
+iff that element is empty, otherwise appends; it never touches an earlier element, however many of
+them are empty (zero-length components — `[u8; 0]` fields, unit structs, an empty `seed_const` — in
+front of or between other seeds). For derived seeds every user seed therefore keeps its position
+and the bump follows them. -/
+theorem bump_slot_is_last (ss : List (List Nat)) (b : Nat) :
+    (ss.getLast? = some [] → seedsWithBump ss b = ss.dropLast ++ [[b]])
+    ∧ (ss.getLast? ≠ some [] → seedsWithBump ss b = ss ++ [[b]])
+    ∧ (∀ i, i + 1 < ss.length → (seedsWithBump ss b)[i]? = ss[i]?)
+    ∧ (seedsWithBump ss b).getLast? = some [b]
+    ∧ (∀ S : SeedStruct, seedsWithBump (seeds S) b = userSeeds S ++ [[b]]
+        ∧ ∀ i, i < (userSeeds S).length → (seedsWithBump (seeds S) b)[i]? = (userSeeds S)[i]?) := by
+  have h1 : ss.getLast? = some [] → seedsWithBump ss b = ss.dropLast ++ [[b]] := by
+    intro h; unfold seedsWithBump; rw [h]
+  have h2 : ss.getLast? ≠ some [] → seedsWithBump ss b = ss ++ [[b]] := by
+    intro h; unfold seedsWithBump
+    split
+    · rename_i h'; exact absurd h' h
+    · rfl
+  refine ⟨h1, h2, ?_, ?_, ?_⟩
+  · intro i hi
+    by_cases h : ss.getLast? = some []
+    · rw [h1 h, List.getElem?_append_left (by simp; omega)]
+      simp only [List.getElem?_dropLast]
+      have : i < ss.length - 1 := by omega
+      simp [this]
+    · rw [h2 h, List.getElem?_append_left (by omega)]
+  · by_cases h : ss.getLast? = some []
+    · rw [h1 h]; simp
+    · rw [h2 h]; simp
+  · intro S
+    refine ⟨seedsWithBump_seeds S b, ?_⟩
+    intro i hi
+    rw [seedsWithBump_seeds, List.getElem?_append_left hi]
+
+/-- Empty components in the middle stay where they are; only the trailing slot takes the bump
+(`[[1], [], [2], []]`: the FIRST empty slice is at index 1, the bump goes to index 3). -/
+example : seedsWithBump [[1], [], [2], []] 9 = [[1], [], [2], [9]]
+    ∧ seedsWithBump [[], [5], []] 9 = [[], [5], [9]]
+    ∧ seedsWithBump [[], [], []] 9 = [[], [], [9]]
+    ∧ seedsWithBump (seeds ⟨some [], [[.uint 1 7], [.arr []], [.uint 1 8]]⟩) 9 = [[], [7], [], [8], [9]] := by
+  decide
+
+/-! ## Repeated validation of ONE `Seeded` value
+
+What the property covers: every validation of a value that has not been validated successfully yet
+— the first call, and every call after failed ones, because a failed call leaves no trace
+(`failed_validation_leaves_no_trace`, so the `…_iff` theorems apply to it verbatim). What is pinned
+as behaviour of the code rather than claimed as conformance: after ONE success every later call
+returns `Ok` without looking at its argument (`validate_sticky`); the record stays that of the first
+success (`history_first_success_wins`), so it still recreates the account key
+(`history_recorded_sound`), but the later `Ok` says nothing about the later argument. -/
+
+/-- A failed validation (mismatch, create error or panic) leaves the value exactly as it was, so the
+next validation of the same value behaves like the first one. -/
+theorem failed_validation_leaves_no_trace (H : Hash) (P : List Nat) (s : VStep) (st : Seeded)
+    (hfail : (applyStep H P s st).1 ≠ .ok) : (applyStep H P s st).2 = st := by
+  cases s with
+  | seeds S =>
+    simp only [applyStep] at *
+    unfold validateSeeds at *
+    cases hr : st.recorded with
+    | some r => simp [hr] at hfail
+    | none =>
+      simp only [hr] at hfail ⊢
+      cases hf : find H (seeds S) P with
+      | none => rfl
+      | some r =>
+        obtain ⟨a, b⟩ := r
+        simp only [hf] at hfail ⊢
+        by_cases hk : a = st.key
+        · simp [hk] at hfail
+        · simp [hk]
+  | bump S b =>
+    simp only [applyStep] at *
+    unfold validateWithBump at *
+    cases hr : st.recorded with
+    | some r => simp [hr] at hfail
+    | none =>
+      simp only [hr] at hfail ⊢
+      cases hc : create H (seedsWithBump (seeds S) b) P with
+      | error e => rfl
+      | ok a =>
+        simp only [hc] at hfail ⊢
+        by_cases hk : a = st.key
+        · simp [hk] at hfail
+        · simp [hk]
+
+example :
+    let H : Hash := fun flat _ => some flat
+    let right : SeedStruct := ⟨none, [[.uint 1 5]]⟩
+    let wrong : SeedStruct := ⟨none, [[.uint 1 6]]⟩
+    -- validate(wrong seeds) → validate(right seeds) → access_seeds
+    (runHistory H [] [.seeds wrong, .bump wrong 255, .seeds right] ⟨[5, 255], none⟩)
+      = ([.addressMismatch, .addressMismatch, .ok], ⟨[5, 255], some ⟨right, 255⟩⟩)
+    -- validate(ok) → validate(other seeds): Ok, record untouched
+    ∧ (runHistory H [] [.seeds right, .seeds wrong, .bump wrong 3] ⟨[5, 255], none⟩)
+      = ([.ok, .ok, .ok], ⟨[5, 255], some ⟨right, 255⟩⟩) := by
+  decide
+
+/-- Any history of validations on a fresh value: either every call failed and nothing is recorded,
+or the calls before the first success failed, the first success records exactly what it would have
+recorded on the fresh value, and every later call returns `Ok` and changes nothing. -/
+theorem history_first_success_wins (H : Hash) (P : List Nat) (hs : List VStep) (st : Seeded)
+    (hfresh : st.recorded = none) :
+    ((runHistory H P hs st).2 = st ∧ ∀ r ∈ (runHistory H P hs st).1, r ≠ .ok)
+    ∨ ∃ pre s post, hs = pre ++ s :: post
+        ∧ (∀ r ∈ (runHistory H P pre st).1, r ≠ .ok)
+        ∧ (applyStep H P s st).1 = .ok
+        ∧ (runHistory H P hs st).2 = (applyStep H P s st).2
+        ∧ (runHistory H P hs st).1
+            = (runHistory H P pre st).1 ++ .ok :: List.replicate post.length .ok := by
+  induction hs with
+  | nil => left; simp [runHistory]
+  | cons s rest ih =>
+    by_cases hok : (applyStep H P s st).1 = .ok
+    · right
+      refine ⟨[], s, rest, rfl, by simp [runHistory], hok, ?_, ?_⟩
+      · -- after the success everything is sticky
+        have hrec : ∃ r, (applyStep H P s st).2.recorded = some r := by
+          cases s with
+          | seeds S =>
+            simp only [applyStep] at hok ⊢
+            unfold validateSeeds at hok ⊢
+            simp only [hfresh] at hok ⊢
+            cases hf : find H (seeds S) P with
+            | none => simp [hf] at hok
+            | some r =>
+              obtain ⟨a, b⟩ := r
+              simp only [hf] at hok ⊢
+              by_cases hk : a = st.key
+              · simp [hk]
+              · simp [hk] at hok
+          | bump S b =>
+            simp only [applyStep] at hok ⊢
+            unfold validateWithBump at hok ⊢
+            simp only [hfresh] at hok ⊢
+            cases hc : create H (seedsWithBump (seeds S) b) P with
+            | error e => simp [hc] at hok
+            | ok a =>
+              simp only [hc] at hok ⊢
+              by_cases hk : a = st.key
+              · simp [hk]
+              · simp [hk] at hok
+        obtain ⟨r, hr⟩ := hrec
+        have hst := sticky_history H P rest (applyStep H P s st).2 r hr
+        simp only [runHistory]
+        rw [hst.1]
+      · obtain ⟨r, hr⟩ : ∃ r, (applyStep H P s st).2.recorded = some r := by
+          cases s with
+          | seeds S =>
+            simp only [applyStep] at hok ⊢
+            unfold validateSeeds at hok ⊢
+            simp only [hfresh] at hok ⊢
+            cases hf : find H (seeds S) P with
+            | none => simp [hf] at hok
+            | some r =>
+              obtain ⟨a, b⟩ := r
+              simp only [hf] at hok ⊢
+              by_cases hk : a = st.key
+              · simp [hk]
+              · simp [hk] at hok
+          | bump S b =>
+            simp only [applyStep] at hok ⊢
+            unfold validateWithBump at hok ⊢
+            simp only [hfresh] at hok ⊢
+            cases hc : create H (seedsWithBump (seeds S) b) P with
+            | error e => simp [hc] at hok
+            | ok a =>
+              simp only [hc] at hok ⊢
+              by_cases hk : a = st.key
+              · simp [hk]
+              · simp [hk] at hok
+        have hst := sticky_history H P rest (applyStep H P s st).2 r hr
+        simp only [runHistory, List.nil_append]
+        rw [hst.2, hok]
+    · have hsame := failed_validation_leaves_no_trace H P s st hok
+      rcases ih with ⟨h1, h2⟩ | ⟨pre, s', post, hhs, hpre, hs', hfin, hres⟩
+      · left
+        simp only [runHistory, hsame]
+        refine ⟨h1, ?_⟩
+        intro r hr
+        simp only [List.mem_cons] at hr
+        rcases hr with rfl | hr
+        · exact hok
+        · exact h2 r hr
+      · right
+        refine ⟨s :: pre, s', post, by simp [hhs], ?_, hs', ?_, ?_⟩
+        · intro r hr
+          simp only [runHistory, hsame, List.mem_cons] at hr
+          rcases hr with rfl | hr
+          · exact hok
+          · exact hpre r hr
+        · simp only [runHistory, hsame]; exact hfin
+        · simp only [runHistory, hsame, List.cons_append]; rw [hres]
+
+/-- Whatever the history on a fresh value, a recorded `(seeds, bump)` always recreates the account
+key: `create(user seeds ++ [bump]) = key` — the signer seeds of a `Seeded` are never stale. No seed
+count side condition: a `find` that succeeds WITH the empty slot shows there was room for it. -/
+theorem history_recorded_sound (H : Hash) (P : List Nat) (hs : List VStep) (st : Seeded)
+    (hfresh : st.recorded = none) (r : Recorded)
+    (hr : (runHistory H P hs st).2.recorded = some r) :
+    (runHistory H P hs st).2.key = st.key
+    ∧ create H (userSeeds r.seeds ++ [[r.bump]]) P = .ok st.key
+    ∧ signerSeeds (runHistory H P hs st).2 = some (userSeeds r.seeds ++ [[r.bump]]) := by
+  rcases history_first_success_wins H P hs st hfresh with ⟨h1, -⟩ | ⟨pre, s, post, -, -, hok, hfin, -⟩
+  · rw [h1, hfresh] at hr; cases hr
+  · rw [hfin] at hr ⊢
+    cases s with
+    | seeds S =>
+      simp only [applyStep] at hok hr ⊢
+      unfold validateSeeds at hok hr ⊢
+      simp only [hfresh] at hok hr ⊢
+      cases hf : find H (seeds S) P with
+      | none => simp [hf] at hok
+      | some q =>
+        obtain ⟨a, b⟩ := q
+        simp only [hf] at hok hr ⊢
+        by_cases hk : a = st.key
+        · simp only [hk, if_true, Option.some.injEq] at hr ⊢
+          subst hr
+          obtain ⟨-, hc⟩ := find_some H _ P _ _ hf
+          unfold seeds at hc
+          refine ⟨trivial, ?_, ?_⟩
+          · rw [← hk]; exact create_empty_slot_ok H _ b P a hc
+          · simp [signerSeeds, seedsWithBump_seeds]
+        · simp [hk] at hok
+    | bump S b =>
+      simp only [applyStep] at hok hr ⊢
+      unfold validateWithBump at hok hr ⊢
+      simp only [hfresh] at hok hr ⊢
+      rw [seedsWithBump_seeds] at hok hr ⊢
+      cases hc : create H (userSeeds S ++ [[b]]) P with
+      | error e => simp [hc] at hok
+      | ok a =>
+        simp only [hc] at hok hr ⊢
+        by_cases hk : a = st.key
+        · simp only [hk, if_true, Option.some.injEq] at hr ⊢
+          subst hr
+          refine ⟨trivial, ?_, ?_⟩
+          · rw [← hk]; exact hc
+          · simp [signerSeeds, seedsWithBump_seeds]
+        · simp [hk] at hok
+
+example :
+    let H : Hash := fun flat _ => if flat.getLast? = some 255 then none else some flat
+    let S : SeedStruct := ⟨some [], [[.arr []], [.uint 1 4]]⟩
+    let fin := (runHistory H [] [.bump S 255, .seeds ⟨none, []⟩, .seeds S, .bump ⟨none, []⟩ 1] ⟨[4, 254], none⟩)
+    fin.1 = [.createErr .invalidSeeds, .addressMismatch, .ok, .ok]
+    ∧ signerSeeds fin.2 = some [[], [], [4], [254]] := by
+  decide
 
 /-- The excluded point (DESIGN D10): a struct with 15 one-byte fields. The canonical address of its
 15 seeds exists (15 + bump = 16 slots), validation with the explicit bump accepts it and the signer
@@ -230,7 +490,7 @@ seeds recreate it — but every path through `seeds()` + appended bump uses 17 s
 `Seeds(..)` validation and the client `find` helper panic, the client `create` helper errors. -/
 theorem fifteen_seed_witness :
     let H : Hash := fun flat _ => some flat
-    let S : SeedStruct := ⟨none, (List.range 15).map fun i => .uint 1 i⟩
+    let S : SeedStruct := ⟨none, (List.range 15).map fun i => [.uint 1 i]⟩
     let key := (List.range 15) ++ [255]
     (userSeeds S).length = 15
     ∧ find H (userSeeds S) [] = some (key, 255)
